@@ -56,11 +56,13 @@ func ReadChunks(ctx context.Context, r io.Reader) *ChunkIterator {
 	go func() {
 		defer close(ipc)
 		iter.catcher.Add(readDiagnostic(ctx, r, ipc))
+		vpoint("rd.added")
 	}()
 
 	go func() {
 		defer close(iter.pipe)
 		iter.catcher.Add(readChunks(ctx, ipc, iter.pipe))
+		vpoint("rc.added")
 	}()
 
 	return iter
